@@ -71,7 +71,7 @@ func needsDescendant(op string) bool { return op == "pull" || op == "merge-ff" }
 
 func run(c *vf.Ctx) {
 	g := gitx.New(c.Scratch)
-	nb := c.N(6, 40)
+	nb := c.N(6, 24)
 	bases := make([]*wtlab.Base, nb)
 	var mu sync.Mutex
 	vf.Parallel(nb, 8, func(i int) {
@@ -110,7 +110,7 @@ func run(c *vf.Ctx) {
 		return 0, 0, false
 	}
 	st := strata()
-	rounds := c.N(1, 12)
+	rounds := c.N(1, 6)
 	for round := 0; round < rounds; round++ {
 		for oi, op := range mainOps {
 			for si, s := range st {
@@ -176,7 +176,7 @@ func run(c *vf.Ctx) {
 		}
 	}
 	allKinds := append(append([]string{}, wtlab.TrackedKinds...), wtlab.NewKinds...)
-	nRandom := c.N(206, 5300)
+	nRandom := c.N(206, 2400)
 	for k := 0; k < nRandom; k++ {
 		r := c.Rand("random", k)
 		op := mainOps[k%len(mainOps)]
@@ -222,12 +222,12 @@ func run(c *vf.Ctx) {
 	vf.Parallel(len(cases), 8, func(i int) { runCase(c, g, bases, cases[i]) })
 
 	c.Extra("git_invocations", gitx.Calls.Load())
-	c.Floor("cases with local changes evaluated", c.Counter("cases_nontrivial"), c.N(300, 6000))
-	c.Floor("successful operations with local changes", c.Counter("op_ok_with_locals"), c.N(80, 1500))
-	c.Floor("refused operations", c.Counter("op_refused"), c.N(40, 800))
-	c.Floor("local paths checked", c.Counter("local_paths_checked"), c.N(350, 7000))
+	c.Floor("cases with local changes evaluated", c.Counter("cases_nontrivial"), c.N(300, 3000))
+	c.Floor("successful operations with local changes", c.Counter("op_ok_with_locals"), c.N(80, 700))
+	c.Floor("refused operations", c.Counter("op_refused"), c.N(40, 400))
+	c.Floor("local paths checked", c.Counter("local_paths_checked"), c.N(350, 3500))
 	c.Floor("strata planned (op x kind x relation)", c.SeenCount("strata_planned"), 150)
-	c.Floor("untracked-at-target-path cases", c.Counter("untracked_at_target_path"), c.N(12, 200))
+	c.Floor("untracked-at-target-path cases", c.Counter("untracked_at_target_path"), c.N(12, 100))
 	c.Assume("ignored files are outside the domain (no .gitignore is generated): git itself overwrites ignored untracked files on checkout")
 	c.Assume("a loss is reported only when real git 2.39.5, run on an identically prepared twin, preserves the same path (or refuses); losses git shares (e.g. reset --merge discarding staged changes, recreation of a worktree-deleted file) are counted as git_same_loss, not reported")
 	c.Assume("edits always change the file size, so racy-clean detection (same mtime second) is not what is being tested here")
